@@ -239,6 +239,8 @@ class Live:
             return kind, 'src/n%d.rst' % k, False, True
         if kind == 'add-extra':
             self.write('src/e%d.md' % k, 'text\n')
+            if feats['nocache']:
+                self.touch('build.bfg')      # documented opt-out of result tracking
             return kind, 'src/e%d.md' % k, False, True
         if kind == 'remove-matching' and srcs:
             victim = rng.choice(srcs)
@@ -337,6 +339,26 @@ def cases(tier, seed):
                    'seed': '%d/%d' % (seed, i)}
 
 
+def order_only(now, fresh, bad):
+    """If the files differ only in the order of the words of some lines, say
+    which kind of line ('dist-list' for the doppel archive commands)."""
+    kinds = set()
+    for n in bad:
+        a, b = now.get(n), fresh.get(n)
+        if a is None or b is None:
+            return None
+        la = a.decode('utf-8', 'replace').splitlines()
+        lb = b.decode('utf-8', 'replace').splitlines()
+        if len(la) != len(lb):
+            return None
+        for x, y in zip(la, lb):
+            if x != y:
+                if sorted(x.split()) != sorted(y.split()):
+                    return None
+                kinds.add('dist-list' if 'doppel' in x.lower() else 'other-line')
+    return '+'.join(sorted(kinds)) if kinds else None
+
+
 def first_diff(a, b):
     la, lb = a.decode('utf-8', 'replace').splitlines(), b.decode('utf-8', 'replace').splitlines()
     for i, (x, y) in enumerate(zip(la, lb)):
@@ -404,7 +426,12 @@ def run_case(case):
             if now != fresh:
                 bad = sorted(n for n in set(now) | set(fresh) if now.get(n) != fresh.get(n))
                 kindv = 'regen-missed' if nproc == 0 else 'regen-differs'
-                res.violate((backend, kindv, k2),
+                oo = order_only(now, fresh, bad)
+                if oo:
+                    kindv, k2v = 'regen-differs-in-order-only', oo
+                else:
+                    k2v = k2
+                res.violate((backend, kindv, k2v),
                             dict(w, files=bad, bfg9000_processes=nproc,
                                  first_diff=first_diff(now.get(bad[0], b''),
                                                        fresh.get(bad[0], b''))))
